@@ -217,7 +217,8 @@ def evaluate_workload(case, variant="plain"):
     w = case["workload"]
     if w == "w1":
         largest = 8 * case["n"] + 64
-        bound = start + 4 * largest + (4 << 20)
+        # room for one doubling of the preloaded heap (legitimate if its free space is fragmented) plus a few requests
+        bound = 2 * start + 4 * largest + (4 << 20)
     elif w == "w2":
         largest = case["size"]
         # two live objects plus the one being allocated, each needing room inside one segment, segments doubling: the unchanged
